@@ -404,7 +404,78 @@ def rule_d(ctx, out):
             out.bad(f"{name}:accumulation-missing", f"{name} does not accumulate both the old and the new figure", where(u))
 
 
+def rule_e(ctx, out):
+    """The price table itself: every opcode with a state-independent gas class is priced with that class's value (abstract
+    evaluation of opcodes.get_ins_cost over the vocabulary), every opcode of the vocabulary has a positive size, and the opcode
+    tables contain no implicit string concatenation ("A" "B" inside a tuple silently removes two opcodes from their class)."""
+    import io
+    import tokenize
+    from ..core.interp import ModuleInterp
+    from ..specs.evm import GAS_CLASS, GAS_VALUE, STACK_ARITY
+    mi = ModuleInterp(ctx)
+    gc = ctx.func("sfs_generator.opcodes.get_ins_cost")
+    gs = ctx.func("sfs_generator.utils.get_ins_size")
+    for cls, ops in GAS_CLASS.items():
+        for op in ops:
+            try:
+                got = mi.call(gc, op)
+            except (Unsupported, Raised) as e:
+                raise AnalysisError(f"cannot evaluate get_ins_cost({op!r}): {e}")
+            if got == GAS_VALUE[cls]:
+                out.ok({"opcode": op, "gas": got, "class": cls})
+            else:
+                out.bad(f"gas-price:{op}", f"get_ins_cost({op!r}) = {got}; the EVM prices {op} in class W{cls} = {GAS_VALUE[cls]} gas. A wrong price makes "
+                        f"the acceptance test compare the wrong quantities", "sfs_generator/opcodes.py", {"class": cls, "expected": GAS_VALUE[cls], "got": got})
+    # nothing that executes is free
+    free_ok = set(GAS_CLASS["zero"]) | {"INVALID", "ASSIGNIMMUTABLE", "MCOPY"}
+    for op in sorted(STACK_ARITY):
+        if op in free_ok:
+            continue
+        try:
+            got = mi.call(gc, op)
+        except (Unsupported, Raised):
+            continue
+        if got and got > 0:
+            out.ok()
+        else:
+            out.bad(f"gas-price-zero:{op}", f"get_ins_cost({op!r}) = {got}: an executing opcode priced 0 makes every sequence that repeats it look free", "sfs_generator/opcodes.py")
+    for op in sorted(STACK_ARITY):
+        if op in ("PUSH",):
+            continue
+        try:
+            sz = mi.call(gs, op, None)
+        except (Unsupported, Raised):
+            continue
+        if isinstance(sz, int) and sz >= 1:
+            out.ok()
+        else:
+            out.bad(f"size-price:{op}", f"get_ins_size({op!r}) = {sz}", "sfs_generator/utils.py")
+    # implicit string concatenation inside collection displays of the table modules
+    for modname in ("sfs_generator.opcodes", "global_params.constants", "sfs_generator.ir_block", "sfs_generator.gasol_optimization"):
+        mod = ctx.p.module(modname)
+        depth = 0
+        prev = None
+        try:
+            toks = list(tokenize.generate_tokens(io.StringIO(mod.src).readline))
+        except tokenize.TokenError:
+            continue
+        for t in toks:
+            if t.type == tokenize.OP and t.string in "([{":
+                depth += 1
+            elif t.type == tokenize.OP and t.string in ")]}":
+                depth -= 1
+            if t.type in (tokenize.NL, tokenize.COMMENT, tokenize.NEWLINE):
+                continue
+            if t.type == tokenize.STRING and prev is not None and prev.type == tokenize.STRING and depth > 0 \
+                    and not t.string.startswith(("f", "F")) and not prev.string.startswith(("f", "F")):
+                out.bad(f"implicit-string-concatenation:{modname}:{prev.string}{t.string}", f"{mod.rel}:{t.start[0]}: adjacent string literals {prev.string} {t.string} "
+                        f"inside a collection are concatenated into one element (missing comma)", f"{mod.rel}:{t.start[0]}")
+            prev = t
+    out.ok({"implicit_concatenations": 0})
+
+
 RULES = [
+    ("C08.e", "price tables: static gas classes, nothing free, no missing comma", 120, rule_e),
     ("C08.a", "acceptance test dominates replacement", 2, rule_a),
     ("C08.b", "decision tables over the sign domain", 100, rule_b),
     ("C08.c", "single source of cost", 6, rule_c),
